@@ -156,6 +156,8 @@ def _insertion_scns(tier, seed, extra=()):
         scenario("casub_x_cacat", [caitems("A", 2), cacat("A", 3)]),
         scenario("cat_1d", [cat("A", 4, miss=[2])]),
         scenario("cat_x_cat.u", [cat("A", 3), cat("B", 3)], weighted=False),
+        scenario("catdate_1d", [cat("A", 4, miss=[3], date=True)]),
+        scenario("cat_x_catdate", [cat("A", 3), cat("B", 3, date=True)]),
     ]
     scns += C.fractional(scns[:2]) + list(extra)
     return _with_insertions(scns, n, seed)
